@@ -896,8 +896,8 @@ public:
     /**
      * Load outIndex array
      **/
-    assert(edgeIndData.data());
-    if (!edgeIndData.data()) {
+    assert(!numNodes || edgeIndData.data());
+    if (numNodes && !edgeIndData.data()) {
       GALOIS_DIE("out of memory");
     }
 
@@ -909,8 +909,8 @@ public:
     /**
      * Load edgeDst array
      **/
-    assert(edgeDst.data());
-    if (!edgeDst.data()) {
+    assert(!numEdges || edgeDst.data());
+    if (numEdges && !edgeDst.data()) {
       GALOIS_DIE("out of memory");
     }
 
@@ -939,8 +939,8 @@ public:
     /**
      * Load edge data array
      **/
-    assert(edgeData.data());
-    if (!edgeData.data()) {
+    assert(!numEdges || edgeData.data());
+    if (numEdges && !edgeData.data()) {
       GALOIS_DIE("out of memory");
     }
     graphFile.seekg(readPosition);
@@ -978,8 +978,8 @@ public:
     /**
      * Load outIndex array
      **/
-    assert(edgeIndData.data());
-    if (!edgeIndData.data()) {
+    assert(!numNodes || edgeIndData.data());
+    if (numNodes && !edgeIndData.data()) {
       GALOIS_DIE("out of memory");
     }
     // start position to read index data
@@ -990,8 +990,8 @@ public:
     /**
      * Load edgeDst array
      **/
-    assert(edgeDst.data());
-    if (!edgeDst.data()) {
+    assert(!numEdges || edgeDst.data());
+    if (numEdges && !edgeDst.data()) {
       GALOIS_DIE("out of memory");
     }
     readPosition = ((4 + numNodes) * sizeof(uint64_t));
